@@ -202,7 +202,7 @@ P["C16"] = dict(
          "= the hand model for all states (gen_next_is_model). 52 obligations. The first 20/40 calls of every run are also replayed through the "
          "FLOAT model (PSSM, weights, rand 0.8.8 WeightedIndex / Uniform from the recorded generator word): the model's own choice must equal "
          "the implementation's.",
-    note=COMMON_NOTE + "Hook: Sampler::verif_starts() (feature verif-hooks). rand's bit generator (ChaCha12), select_holdout's integer draw and the initial draws stay inputs read off the trace; libm enters as re-validated oracle tables; weights_support is partial (a live position has a positive weight: not proved); panics on an empty active set are documented outside the quantifier.",
+    note=COMMON_NOTE + "Hook: Sampler::verif_starts() (feature verif-hooks). rand's bit generator (ChaCha12), select_holdout's integer draw and the initial draws stay inputs read off the trace; libm enters as re-validated oracle tables; only weights_support_partial is proved (the converse, a live position has a positive weight, is not); panics on an empty active set are documented outside the quantifier.",
     technique="Coq proof (state invariant by induction over operation/choice lists; Flocq binary64 for the weighted draw) + translated statement lists of sampler.rs proved equal to the model + extracted-model correspondence check (choice-list replay and float replay)",
     design="DESIGN.md section 3, C16")
 P["C17"] = dict(
